@@ -80,6 +80,9 @@ def render_lines(lines, style):
     cur = None                  # path of the last tree line in nested layout
     for ln in lines:
         k = ln["k"]
+        if k == "unit":                 # `$unit` definition at the top of a text
+            out.append(f"$unit {ln['name']} = {ln['val']} {ln['unit']}")
+            continue
         if k == "def":
             t = ln["t"]
             p = t["path"]
